@@ -742,4 +742,50 @@ Theorem default_pop_absent_raises_r c k d d0 : reachable K V keqb lower c -> cls
   step c (OPop k d) = (c, EExn KeyError).
 Proof. intros R. apply default_pop_absent_raises. apply reachable_inv, R. Qed.
 
+(* ------------------------------------------------------------------ the defaulting variant, all operations but lower() *)
+Lemma dstep_refines c o d0 : inv c -> cls_ok c (Some d0) -> is_lower_op K V o = false ->
+  dspec_step K V keqb lower d0 (abs c) o = (abs (fst (step c o)), snd (step c o)) /\
+  inv (fst (step c o)) /\ cls_ok (fst (step c o)) (Some d0).
+Proof.
+  intros I C NL.
+  assert (G : op_ok (Some d0) (abs c) o = true -> dspec_step K V keqb lower d0 (abs c) o = spec_step (Some d0) (abs c) o ->
+              dspec_step K V keqb lower d0 (abs c) o = (abs (fst (step c o)), snd (step c o)) /\
+              inv (fst (step c o)) /\ cls_ok (fst (step c o)) (Some d0)).
+  { intros OK E. rewrite E. apply step_refines; assumption. }
+  destruct o as [k v|k|k|k|k d|k d| |k d|kvs| |]; try (apply G; reflexivity); try discriminate.
+  - (* get *) destruct (shas (abs c) k) eqn:H.
+    + apply G; [exact H|]. cbn. rewrite shas_sget in H. destruct (sget (abs c) k); [reflexivity | discriminate].
+    + rewrite <- (contains_abs c k I) in H.
+      destruct (default_get_setdefault_no_insert c k d d0 I C H) as (E & _). rewrite E. cbn.
+      rewrite (contains_abs c k I), shas_sget in H. destruct (sget (abs c) k); [discriminate | auto].
+  - (* pop *) destruct (shas (abs c) k) eqn:H.
+    + assert (OK : op_ok (Some d0) (abs c) (OPop k d) = true) by (cbn; destruct d; auto).
+      apply G; [exact OK|]. cbn. rewrite shas_sget in H. destruct (sget (abs c) k); [reflexivity | discriminate].
+    + rewrite <- (contains_abs c k I) in H. rewrite (default_pop_absent_raises c k d d0 I C H). cbn.
+      rewrite (contains_abs c k I), shas_sget in H. destruct (sget (abs c) k); [discriminate | auto].
+  - (* setdefault *) destruct (shas (abs c) k) eqn:H.
+    + apply G; [exact H|]. cbn. rewrite shas_sget in H. destruct (sget (abs c) k); [reflexivity | discriminate].
+    + rewrite <- (contains_abs c k I) in H.
+      destruct (default_get_setdefault_no_insert c k None d0 I C H) as (_ & _ & E). rewrite (E d). cbn.
+      rewrite (contains_abs c k I), shas_sget in H. destruct (sget (abs c) k); [discriminate | auto].
+Qed.
+
+Theorem default_run_refines_quirks_gen d0 probes : forall ops c, inv c -> cls_ok c (Some d0) ->
+  existsb (is_lower_op K V) ops = false ->
+  run K V keqb lower probes c ops = dspec_run K V keqb lower d0 probes (abs c) ops.
+Proof.
+  induction ops as [|o r IH]; intros c I C NL; cbn [run dspec_run existsb] in *; [reflexivity|].
+  apply orb_false_iff in NL. destruct NL as [NL1 NL2].
+  destruct (dstep_refines c o d0 I C NL1) as (E & I' & C'). rewrite E.
+  destruct (step c o) as [c' x] eqn:ES. cbn [fst snd] in *.
+  rewrite (observe_abs c' (Some d0) probes I' C'), (IH c' I' C' NL2). reflexivity.
+Qed.
+Theorem default_run_refines_quirks d0 probes ops : existsb (is_lower_op K V) ops = false ->
+  run K V keqb lower probes (default_init K V (FacVal d0)) ops = dspec_run K V keqb lower d0 probes [] ops.
+Proof.
+  intros NL. apply (default_run_refines_quirks_gen d0 probes ops (default_init K V (FacVal d0))); auto.
+  - split; [reflexivity | split; constructor].
+  - reflexivity.
+Qed.
+
 End P.
